@@ -1,50 +1,84 @@
 #!/usr/bin/env python3
 """Run the registered checks against every seeded change under /verif/seeded and record
 which harnesses report it. usage: run_seeds.py [tier] [name ...]
-Applies each patch to /repo (git apply), runs the property's check, restores /repo
-(git checkout -- .). Evidence of these runs goes to a scratch directory."""
-import json, os, re, subprocess, sys, tempfile
+The checks run from a snapshot copy of /verif (so that work in /verif does not disturb
+them) against scratch worktrees of /repo's HEAD to which one patch at a time is applied
+(git apply); /repo itself is never touched. Evidence of these runs goes to scratch."""
+import json, os, re, shutil, subprocess, sys, tempfile, threading
+from concurrent.futures import ThreadPoolExecutor
 tier = sys.argv[1] if len(sys.argv) > 1 else 'quick'
-names = sys.argv[2:] or sorted(os.listdir('/verif/seeded'))
-scratch = tempfile.mkdtemp(prefix='seedev-', dir='/verif/.work' if os.path.isdir('/verif/.work') else None)
-env = dict(os.environ, VERIF_EVIDENCE_DIR=scratch)
-# the seeded change is applied to a scratch worktree of /repo's HEAD, never to /repo itself
-WT = '/tmp/seedrun-wt'
-subprocess.run(['git', '-C', '/repo', 'worktree', 'remove', '--force', WT], capture_output=True)
-subprocess.run(['git', '-C', '/repo', 'worktree', 'add', '--detach', WT, 'HEAD'], check=True, capture_output=True)
-env['VERIF_REPO'] = WT
-rows = []
-for name in names:
+names = sys.argv[2:] or sorted(n for n in os.listdir('/verif/seeded') if os.path.isdir('/verif/seeded/' + n))
+JOBS = int(os.environ.get('SEED_JOBS', '3'))
+snap = tempfile.mkdtemp(prefix='verif-snap-')
+subprocess.run(['rsync', '-a', '--exclude', '.git', '--exclude', '.work', '--exclude', 'replays', '/verif/', snap + '/'], check=True)
+scratch = tempfile.mkdtemp(prefix='seedev-')
+lock = threading.Lock()
+free = []
+for i in range(JOBS):
+    wt = '/tmp/seedrun-wt-%d' % i
+    subprocess.run(['git', '-C', '/repo', 'worktree', 'remove', '--force', wt], capture_output=True)
+    subprocess.run(['git', '-C', '/repo', 'worktree', 'add', '--detach', wt, 'HEAD'], check=True, capture_output=True)
+    free.append(wt)
+rows = {}
+
+
+def one(name):
     d = os.path.join('/verif/seeded', name)
     mp = os.path.join(d, 'meta.json')
     if not os.path.exists(mp):
-        continue
+        return
     meta = json.load(open(mp))
     prop = meta['property']
-    ap = subprocess.run(['git', '-C', WT, 'apply', os.path.join(d, 'patch.diff')], capture_output=True, text=True)
-    if ap.returncode != 0:
-        meta['detected_by'] = {'tier': tier, 'result': 'patch does not apply to the current (fixed) tree', 'harnesses': []}
-        json.dump(meta, open(mp, 'w'), indent=1)
-        rows.append((name, prop, 'PATCH-FAILS', ''))
-        continue
+    with lock:
+        wt = free.pop()
     try:
-        r = subprocess.run(['./check', 'run', prop, '--tier', tier, '--stop-at-first'], cwd='/verif', env=env, capture_output=True, text=True, timeout=3600)
-        out = r.stdout
-    except subprocess.TimeoutExpired as e:
-        out = (e.stdout or b'').decode() if isinstance(e.stdout, bytes) else (e.stdout or '')
-        r = None
+        ap = subprocess.run(['git', '-C', wt, 'apply', os.path.join(d, 'patch.diff')], capture_output=True, text=True)
+        if ap.returncode != 0:
+            meta['detected_by'] = {'tier': tier, 'result': 'patch does not apply to the current (repaired) tree', 'harnesses': []}
+            json.dump(meta, open(mp, 'w'), indent=1)
+            rows[name] = (name, prop, 'PATCH-FAILS', '')
+            print(rows[name], flush=True)
+            return
+        env = dict(os.environ, VERIF_EVIDENCE_DIR=os.path.join(scratch, name), VERIF_REPO=wt)
+        os.makedirs(env['VERIF_EVIDENCE_DIR'], exist_ok=True)
+        try:
+            r = subprocess.run(['./check', 'run', prop, '--tier', tier, '--stop-at-first'], cwd=snap, env=env, capture_output=True, text=True, timeout=5400)
+            out, code = r.stdout, r.returncode
+        except subprocess.TimeoutExpired as e:
+            out = (e.stdout or b'').decode() if isinstance(e.stdout, bytes) else (e.stdout or '')
+            code = 'timeout'
+        hs = sorted(set(re.findall(r'^  harness=(\S+)', out, re.M)))
+        detected = 'VIOLATION property=' in out
+        skipped = sorted(set(re.findall(r'^SKIPPED-HARNESS (\S+):', out, re.M)))
+        result = 'detected' if detected else ('check did not run (exit %s)' % code if code not in (0, 1) else 'missed')
+        if meta.get('obsolete'):
+            result += ' (obsolete: ' + str(meta['obsolete']) + ')'
+        meta['detected_by'] = {'tier': tier, 'result': result, 'exit': code, 'harnesses': hs, 'skipped_harnesses': skipped}
+        json.dump(meta, open(mp, 'w'), indent=1)
+        rows[name] = (name, prop, 'DETECTED' if detected else result, ','.join(hs))
+        print(rows[name], flush=True)
     finally:
-        subprocess.run('git -C %s checkout -- . && git -C %s clean -fdq' % (WT, WT), shell=True)
-    hs = sorted(set(re.findall(r'^  harness=(\S+)', out, re.M)))
-    detected = 'VIOLATION property=' in out
-    skipped = sorted(set(re.findall(r'^SKIPPED-HARNESS (\S+):', out, re.M)))
-    meta['detected_by'] = {'tier': tier, 'result': 'detected' if detected else 'missed', 'exit': (r.returncode if r else 'timeout'), 'harnesses': hs, 'skipped_harnesses': skipped}
-    json.dump(meta, open(mp, 'w'), indent=1)
-    rows.append((name, prop, 'DETECTED' if detected else 'missed', ','.join(hs)))
-    print(rows[-1], flush=True)
-with open('/verif/seeded/RESULTS.md', 'w') as f:
+        subprocess.run('git -C %s checkout -- . && git -C %s clean -fdq' % (wt, wt), shell=True)
+        with lock:
+            free.append(wt)
+
+
+with ThreadPoolExecutor(JOBS) as ex:
+    list(ex.map(one, names))
+# merge into RESULTS.md (keep rows of seeds not run this time)
+res = '/verif/seeded/RESULTS.md'
+old = {}
+if os.path.exists(res):
+    for line in open(res):
+        m = re.match(r'\| (\S+) \| (\S+) \| (.*?) \| (.*?) \|$', line.strip())
+        if m and m.group(1) != 'seed' and not m.group(1).startswith('-'):
+            old[m.group(1)] = m.groups()
+old.update(rows)
+with open(res, 'w') as f:
     f.write('# Seeded changes vs. checks (tier: %s)\n\n| seed | property | result | harnesses reporting |\n|---|---|---|---|\n' % tier)
-    for r in rows:
-        f.write('| %s | %s | %s | %s |\n' % r)
-subprocess.run(['rm', '-rf', scratch])
-subprocess.run(['git', '-C', '/repo', 'worktree', 'remove', '--force', WT], capture_output=True)
+    for k in sorted(old):
+        f.write('| %s | %s | %s | %s |\n' % tuple(old[k]))
+shutil.rmtree(scratch, ignore_errors=True)
+shutil.rmtree(snap, ignore_errors=True)
+for i in range(JOBS):
+    subprocess.run(['git', '-C', '/repo', 'worktree', 'remove', '--force', '/tmp/seedrun-wt-%d' % i], capture_output=True)
